@@ -105,10 +105,17 @@ func build(sc *Scenario) *plan {
 			p.jumps = append(p.jumps, r.Jump)
 			p.restarts++
 		}
-		if burst[id] > 0 {
-			cur += uint16(burst[id])
-			pos += burst[id]
-			p.bursts++
+		if b := burst[id]; b > 0 {
+			// one incarnation spans fewer than 2^15 sequence numbers, so that
+			// any two of its packets compare unambiguously modulo 2^16
+			if pos+b > maxSpan {
+				b = maxInt(0, maxSpan-pos)
+			}
+			if b > 0 {
+				cur += uint16(b)
+				pos += b
+				p.bursts++
+			}
 		}
 		p.src[id] = srcPkt{seq: cur, epoch: epoch, pos: pos, ssrc: ssrc, ts: uint32(id) * 3000}
 		cur++
